@@ -29,6 +29,8 @@ func (C11) Describe() CheckInfo {
 }
 
 var c11Probes = []string{
+	".[\"_\"]", ".[\"__\"]", "pick([\"__\"])", ".[] | .[\"_1\"]", "has(\"_\")", ".[\"_\"] = 1", "[1, 2] | .[\"_\"]", "[1, 2] | pick([\"__\"])", "[1, 2] | has(\"_\")", "[1, 2] | .[\"0_\"]", "[1, 2] | .[\"-\"]", "[1, 2] | .[\"+\"]", "[1, 2] | .[\"0x\"]",
+	"{\"name\": \"sam\", \"kind\": \"owner\"} | contains({\"owner\": \"sam\"})", "{\"a\": \"b\"} | contains({\"b\": 1})", "contains({\"x\": .})", ". as $d | contains($d)", "[.. | select(kind == \"map\")] | .[0] | contains({\"x\": \"y\"})", "{\"a\": \"k\", \"b\": \"k\"} | contains({\"k\": \"k\"})",
 	// one operator inside another's scope: date layouts around the ordering operators, elements without the key
 	"with_dtf(\"2006\"; sort_by(.t))", "with_dtf(\"Jan 2\"; sort_by(.missing))", "with_dtf(\"2006-01-02\"; .. | select(kind == \"seq\") | sort_by(.k))", "with_dtf(\"Monday\"; [..] | sort_by(.a))", "with_dtf(\"2006\"; group_by(.t))", "with_dtf(\"2006\"; unique_by(.x))",
 	"with_dtf(\"2006\"; [.. | select(kind == \"map\")] | sort_by(.nope))", "with_dtf(\"15:04\"; sort)", "with_dtf(\"\"; sort_by(.a))", "with_dtf(\"2006\"; .[] |= sort_by(.v))", "with_dtf(\"2006\"; to_entries | sort_by(.value.t))", "[.. | select(kind == \"map\")] | sort_by(.nope)",
@@ -186,6 +188,12 @@ func (C11) Generate(c *Ctx, r *Rand, index int) *Scenario {
 		sc.Meta["input"] = "deep-nesting"
 		sc.Meta["deep"] = true
 	}
+	if fi.Name == "yaml" && sc.MetaString("special") == "" && sc.MetaString("input") == "" && rs.Chance(1, 50) {
+		// files for --front-matter whose head never closes, cut off inside the closing separator
+		text = Pick(rs, []string{"---\ntitle: x\n--", "---\na: 1\n-", "---\n--", "--", "---", "---\n", "---\ntitle: x\n---", "---\ntitle: x\n--\n", "-\n--\n---", "---\r\na: 1\r\n--"})
+		sc.Meta["input"] = "front-matter-tail"
+		sc.Meta["fmtail"] = true
+	}
 	if fi.Name == "lua" && rs.Chance(1, 200) {
 		// Lua input is a program: one that does not end
 		text = Pick(rs, []string{"while true do end\n", "local function f() return f() end\nreturn f()\n", "repeat until false\n"})
@@ -247,7 +255,7 @@ func (C11) Generate(c *Ctx, r *Rand, index int) *Scenario {
 	data := []byte(text)
 	rd := r.Fork("damage")
 	nDamage := rd.Weighted([]int{25, 50, 18, 7})
-	if sc.MetaString("special") != "" || sc.MetaBool("deep") || sc.MetaBool("refchain") {
+	if sc.MetaString("special") != "" || sc.MetaBool("deep") || sc.MetaBool("refchain") || sc.MetaBool("fmtail") {
 		nDamage = 0
 	}
 	var ds []damage
@@ -349,7 +357,9 @@ func (C11) Generate(c *Ctx, r *Rand, index int) *Scenario {
 		argv = append(argv, "--expression="+expr, name)
 		sc.Meta["keep_flags"] = []any{"-p=" + fi.Name, "--expression=" + expr}
 	}
-	if fi.Name == "yaml" && rs.Chance(1, 25) {
+	if sc.MetaBool("fmtail") {
+		argv = append([]string{Pick(rs, []string{"--front-matter=extract", "--front-matter=process"})}, argv...)
+	} else if fi.Name == "yaml" && rs.Chance(1, 25) {
 		// front matter and/or split output
 		fm := Pick(rs, []string{"--front-matter=process", "--front-matter=extract", "-s=.id", "-s=.a", "--front-matter=process -s=.id", "-s=\"out_\" + $index"})
 		argv = append(strings.Fields(fm), argv...)
